@@ -5,6 +5,7 @@ go 1.12
 require (
 	github.com/orbs-network/govnr v0.2.0
 	github.com/orbs-network/lean-helix-go v0.0.0
+	github.com/orbs-network/scribe v0.1.0
 )
 
 replace github.com/orbs-network/lean-helix-go => /repo
